@@ -24,7 +24,7 @@ def pipe(text, technique, design):
 
 
 CLAIMED.update({
-    "C01": pipe("Theorems: a VOk verdict of the in-Coq comparison means equal names and equal rows (sequence when the pipeline fixes the order, multiset otherwise) w.r.t. ONE reference semantics evaluated on the real resolved AST of each backend; hence both backends agree. SQL compile correctness (sql_compile_correct): for every database and every AST of the single-SELECT fragment (flat_ok: source, select, rename, element-wise mutate / filter, mutate with window / aggregate functions incl. partition_by and arrange=, group_by, one summarize with HAVING-filters and mutates after it, one arrange, slice_head chains, unions and inner joins of such pipelines) the SELECT denoted by the transcription of SqlImpl.compile_ast returns exactly the reference table; Polars compile correctness (polars_compile_correct) for the transcription of the Polars compile_ast incl. rename_overwritten_cols; backends_agree: on the common fragment the SQL statement and the Polars plan denote the same table for all data. Tie: L1 on typed random pipelines over all verbs (joins, unions, windows, aggregates, all data shapes incl. tall tables with long null prefixes) on Polars and SQLite + L2 metadata traces + L3 (Model/SqlCompile.compile = real SqlImpl.compile_ast: Query record, labels, scope; Model/PlCompile.pl_compile = real Polars compile_ast: select, partition_by, name_in_df, schema; on every single-source case; share of cases inside the fragments reported). PARTIAL: outside the fragments (subquery markers, joins with computed columns on a padded side; for SQL also several arranges, filters after an arrange) equality of the backends is decided per case by L1.",
+    "C01": pipe("Theorems: a VOk verdict of the in-Coq comparison means equal names and equal rows (sequence when the pipeline fixes the order, multiset otherwise) w.r.t. ONE reference semantics evaluated on the real resolved AST of each backend; hence both backends agree. SQL compile correctness (sql_compile_correct): for every database and every AST of the single-SELECT fragment (flat_ok: source, select, rename, element-wise mutate / filter, mutate with window / aggregate functions incl. partition_by and arrange=, group_by, one summarize with HAVING-filters and mutates after it, one arrange, slice_head chains, unions and inner joins of such pipelines) the SELECT denoted by the transcription of SqlImpl.compile_ast returns exactly the reference table; Polars compile correctness (polars_compile_correct) for the transcription of the Polars compile_ast incl. rename_overwritten_cols; backends_agree: on the common fragment the SQL statement and the Polars plan denote the same table for all data. Tie: L1 on typed random pipelines over all verbs (joins, unions, windows, aggregates, all data shapes incl. tall tables with long null prefixes) on Polars and SQLite + L2 metadata traces + L3 (Model/SqlCompile.compile = real SqlImpl.compile_ast: Query record, labels, scope; Model/PlCompile.pl_compile = real Polars compile_ast: select, partition_by, name_in_df, schema; on every single-source case; share of cases inside the fragments reported). PARTIAL: outside the fragments (plain alias() with re-numbered column identities, joins with computed columns on a padded side; for SQL also several arranges, filters after an arrange) equality of the backends is decided per case by L1.",
                 "Rocq: reference semantics + comparison soundness theorems; differential correspondence of both backends against the reference evaluated by vm_compute", "5 / C01"),
     "C02": pipe("Theorems (all tables, all expressions): select/drop only hide, rename only renames, mutate is simultaneous and keeps overwritten columns readable through their uid, filter keeps exactly the true rows in order, slice_head spec and the chain law, group_by/ungroup/alias change no data. Tie: L1 on row-verb pipelines on both backends.",
                 "Rocq: theorems on the reference semantics of the row verbs (induction over definitions, firstn/skipn algebra); differential correspondence", "5 / C02"),
@@ -36,7 +36,7 @@ CLAIMED.update({
                 "Rocq: join laws on the reference semantics; differential correspondence", "5 / C06"),
     "C07": pipe("Theorems: union all keeps every row under the left header, rows are matched by column name, distinct leaves no duplicate visible row (nulls equal); COMPILE CORRECTNESS of union on both backends, all data: sql_union_is_the_reference (transcription of the Union branch of SqlImpl.compile_ast: operands compiled to complete SELECTs, right select list reordered by column name, compound as FROM of a fresh query) and polars_union_is_the_reference (frames projected on the left names - right columns picked by name -, stacked, deduplicated, hidden columns dropped), operands being any pipelines of the flat fragments. Tie: L3 on every union case (SQL: Query record, labels, scope and the operands' select lists as column identities vs the real compile_query calls; Polars: select, name_in_df, schema) + L1 on union pipelines with permuted column orders, hidden columns, duplicates, empty sides, chained unions.",
                 "Rocq: union laws on the reference semantics; differential correspondence", "5 / C07"),
-    "C08": pipe("Theorems on the transcribed subquery catalogue (Model/Cache.requires_subquery): Polars never needs one; on the table re-rooted by alias()+marker NO verb needs one (alias unblocks); select/rename/slice_head/ungroup/alias never need one; filter/summarize/arrange/group_by/join/union after slice_head always do; element-wise mutate/filter, arrange, group_by and a first summarize never do while no limit and no window column are in scope; SUFFICIENCY on the flat fragment: a pipeline accepted at every verb by the transcribed catalogue applied to the transcribed metadata is compiled to a SELECT that returns the reference table (accepted_flat_pipelines_are_compiled_correctly; the metadata and the compiler transcriptions are linked by an invariant over the pipeline), with slice_head(0) (finding F16) as the machine-checked counterexample of the unrestricted statement. Tie: L2 — every recorded decision of the real Cache.requires_subquery (also for refused verbs) equals the model's; L1 — every accepted SQLite pipeline equals the reference; oracle — alias() before a refused verb makes it accepted. A broken L2 is turned into a failing input by probing every in-scope column after each prefix.",
+    "C08": pipe("Theorems on the transcribed subquery catalogue (Model/Cache.requires_subquery): Polars never needs one; on the table re-rooted by alias()+marker NO verb needs one (alias unblocks); select/rename/slice_head/ungroup/alias never need one; filter/summarize/arrange/group_by/join/union after slice_head always do; element-wise mutate/filter, arrange, group_by and a first summarize never do while no limit and no window column are in scope; SUFFICIENCY on the flat fragment: a pipeline accepted at every verb by the transcribed catalogue applied to the transcribed metadata is compiled to a SELECT that returns the reference table (accepted_flat_pipelines_are_compiled_correctly; the metadata and the compiler transcriptions are linked by an invariant over the pipeline), with slice_head(0) (finding F16) as the machine-checked counterexample of the unrestricted statement; subquery_is_compiled_correctly: the subquery that alias() + marker produce (the query built so far nested as FROM, a fresh outer query over its columns) denotes the reference table whatever the inner query is, so a refused verb placed behind alias() is compiled correctly. Tie: L2 — every recorded decision of the real Cache.requires_subquery (also for refused verbs) equals the model's; L1 — every accepted SQLite pipeline equals the reference; oracle — alias() before a refused verb makes it accepted. A broken L2 is turned into a failing input by probing every in-scope column after each prefix.",
                 "Rocq: theorems on the transcribed catalogue; L2 decision-by-decision correspondence + L1 differential", "5 / C08"),
     "C09": pipe("Theorems: data read through a uid is unchanged by rename/select/drop, by overwriting mutate (old uid keeps old data), by filter/arrange/slice_head (rows are handed on intact), by join (left part of the joined row); the current name of a uid is its export name (cache = reference header). Tie: L1 on reference-heavy histories (swaps, renaming onto hidden names, overwrite and re-create, join suffixing, references from intermediate tables, hidden columns) + stale-reference stream (must raise ColumnNotFoundError / ValueError in a join condition). Resolution of t.x / C.x to uids is performed by the real front end and not modelled (partial).",
                 "Rocq: uid-denotation theorems on the reference semantics + cache/reference agreement; differential correspondence", "5 / C09"),
